@@ -44,7 +44,15 @@ func (vc *VC) smtText(prelude string, extra string) string {
 	if vc.ClauseText != "" {
 		b.WriteString("; clause: " + vc.ClauseText + "\n")
 	}
-	b.WriteString(prelude)
+	var body strings.Builder
+	for _, d := range vc.fv.decls[:vc.NDecls] {
+		body.WriteString(d + "\n")
+	}
+	for _, h := range vc.Hyps {
+		body.WriteString(h + "\n")
+	}
+	body.WriteString(vc.Goal + "\n" + extra)
+	b.WriteString(vc.fv.smt.PreludeFor(body.String()))
 	for _, d := range vc.fv.decls[:vc.NDecls] {
 		b.WriteString(d + "\n")
 	}
